@@ -189,6 +189,7 @@ func main() {
 	}
 	var results []*interp.HarnessResult
 	var harnessPkgs []string
+	nativeTier = *tier
 	nWit := *witnessN
 	if nWit < 0 {
 		nWit = 0
@@ -290,7 +291,7 @@ func main() {
 			seenV[key] = true
 			file := filepath.Join(*verif, "replays", fmt.Sprintf("%s-%s-%s.json", *prop, h.Func, shortHash(v.Label)))
 			bz, _ := json.MarshalIndent(map[string]interface{}{"property": *prop, "harness": v.Harness, "pkg": h.Pkg, "label": v.Label,
-				"kind": v.Kind, "model": v.Model, "pos": v.Pos, "detail": v.Detail}, "", " ")
+				"kind": v.Kind, "model": v.Model, "pos": v.Pos, "detail": v.Detail, "tier": *tier}, "", " ")
 			os.WriteFile(file, bz, 0o644)
 			if *noReplay {
 				fmt.Printf("VIOLATION property=%s replay=%s (not replayed) label=%q\n", *prop, file, v.Label)
@@ -523,6 +524,9 @@ func witnessNative(repo, verif string, reg Registry, pkg, file string) (agree, d
 	return agree, differ, diffs, nil
 }
 
+// nativeTier is the tier the native replays run under (the harness bounds depend on it).
+var nativeTier = "quick"
+
 func runNativeDriver(repo, verif string, reg Registry, pkg, run, env string) (bool, string, string) {
 	files, err := overlayFiles(repo, verif)
 	if err != nil {
@@ -566,7 +570,7 @@ func runNativeDriver(repo, verif string, reg Registry, pkg, run, env string) (bo
 	os.WriteFile(ovp, ovj, 0o644)
 	cmd := exec.Command("go", "test", "-count=1", "-vet=off", "-overlay="+ovp, "-run", run, "-v", "./"+pkg+"/")
 	cmd.Dir = repo
-	cmd.Env = append(os.Environ(), "GOFLAGS=-mod=mod", "GOPROXY=off", "GOSUMDB=off", "GOTOOLCHAIN=local", env)
+	cmd.Env = append(os.Environ(), "GOFLAGS=-mod=mod", "GOPROXY=off", "GOSUMDB=off", "GOTOOLCHAIN=local", "VERIF_TIER="+nativeTier, env)
 	out, _ := cmd.CombinedOutput()
 	txt := string(out)
 	rep := ""
@@ -611,8 +615,12 @@ func doReplayFile(repo, verif string, reg Registry, file string) int {
 	var r struct {
 		Property string `json:"property"`
 		Pkg      string `json:"pkg"`
+		Tier     string `json:"tier"`
 	}
 	mustReadJSON(file, &r)
+	if r.Tier != "" {
+		nativeTier = r.Tier
+	}
 	ok, rep := replayNative(repo, verif, reg, r.Pkg, file)
 	fmt.Println(rep)
 	if ok {
